@@ -315,3 +315,31 @@ Example C10_pdr_model_example :
   (match pex_run (fun s => Nat.eqb s 2) true with Ok (VFail _ _, _) => true | _ => false end) = true /\
   (match pex_run (fun s => Nat.eqb s 2) false with Ok (VFail _ _, _) => true | _ => false end) = true.
 Proof. vm_compute. repeat split. Qed.
+
+(** ** the concrete model on the transition systems of Spec/System.v (Model/PdrSys.v)
+
+    States = valuations of the state symbols (bounded numbers), literals = (bit, polarity),
+    [st_bad0] / [st_step0] / [st_trans] / [st_bad] = the system's init equations, constraints,
+    next-state functions and bad-state expressions with the inputs existentially quantified (the
+    inputs of the initial step shared between the init equations and the first transition).
+    For EVERY system of the class [fin_class], every oracle whose answers are truthful for these
+    semantics, generalisation on or off, every fuel: if the concrete model of pdr.rs answers Success
+    then no bad state is reachable by any execution of Spec/System.v that satisfies the constraints
+    at every step ([bad_reachable], unbounded depth).
+
+    Not proved at this level (kept visible): the converse map from a state-level counterexample path
+    back to an execution of Spec/System.v (choice of the inputs step by step), i.e. "Fail implies
+    bad_reachable" is proved for the state-level semantics only ([C10_pdr_model_fail_real]); the
+    witness itself is produced by the BMC fallback (C02/C03) and is replayed on every run. *)
+From Patronus Require Import PdrSys PdrSysProofs.
+
+Theorem C10_pdr_model_success_sound_sys :
+  forall (sy : sys), fin_class sy = true ->
+  forall (W : Type) (solve : nat -> query slit -> answer slit (sstate sy)) (gen_on : bool)
+         (bmc_result : bmc_answer W) (fuel bf : nat) (st' : pst slit (sstate sy)),
+    (forall n q, truthful slit slit_eqb (sstate sy) (slit_holds sy) (st_bad0 sy) (st_step0 sy) (st_trans sy) (st_bad sy)
+                          q (solve n q)) ->
+    pdr slit slit_eqb (sstate sy) (scube sy) W solve gen_on (has_bads_of sy) bmc_result fuel bf = Ok (VSuccess W, st') ->
+    ~ bad_reachable sy.
+Proof. exact pdr_model_success_sound_sys. Qed.
+Print Assumptions C10_pdr_model_success_sound_sys.
